@@ -318,7 +318,12 @@ def compile_skeleton(I: Interp, pattern: Any, config: Optional[dict] = None) -> 
         for ev in path.events:
             if ev.kind == "construct" and ev.cls == "CapturesManager":
                 lst = ev.obj.fields.get("_capture_group_references")
-                caps = list(lst.items) if isinstance(lst, ListV) else []
+                if not isinstance(lst, ListV) and ev.obj.cls.find_method("capture_group_references") is not None:
+                    try:
+                        lst = I.call_func(ev.obj.cls.find_method("capture_group_references"), [], {}, ev.obj, None, None)
+                    except (RaiseEx, AnalysisError):
+                        lst = None
+                caps = list(lst.items) if isinstance(lst, ListV) and lst.absorbed is None else []
         out.append(Compiled(path, path.value if path.kind == "return" and isinstance(path.value, Str) else None,
                             tree, caps))
     return out
